@@ -1002,3 +1002,108 @@ func (w *World) LedgerDB() *sql.DB { return w.ledgerDB }
 
 // Ctx returns the world's context.
 func (w *World) Ctx() context.Context { return w.ctx }
+
+// ---------------------------------------------------------------- disturbance helpers (C04)
+
+// MetaDir returns litestream's local state directory for the database.
+func (w *World) MetaDir() string {
+	return filepath.Join(filepath.Dir(w.DBPath), "."+filepath.Base(w.DBPath)+"-litestream")
+}
+
+// Disable stops replication of the same DB object (the IPC "stop" path).
+func (w *World) Disable() error { return w.Store.DisableDB(w.ctx, w.DBPath) }
+
+// Enable restarts replication of the same DB object (the IPC "start" path).
+func (w *World) Enable() error { return w.Store.EnableDB(w.ctx, w.DBPath) }
+
+// CloseAllApp closes every application connection including the ledger
+// connection (SQLite then checkpoints and deletes the WAL if nobody else has
+// the database open) and the harness's persistent descriptor.
+func (w *World) CloseAllApp() {
+	for i := range w.conns {
+		w.closeConn(i)
+	}
+	if w.ledgerDB != nil {
+		_ = w.ledgerDB.Close()
+		w.ledgerDB = nil
+	}
+	if w.dbfd != nil {
+		_ = w.dbfd.Close()
+		w.dbfd = nil
+	}
+}
+
+// ReopenApp reopens connection 0, the ledger connection and the descriptor.
+func (w *World) ReopenApp() error {
+	if err := w.reopenFD(); err != nil {
+		return err
+	}
+	if w.conns[0] == nil {
+		if err := w.openConn(0, false); err != nil {
+			return err
+		}
+		if _, err := w.conns[0].conn.ExecContext(w.ctx, `PRAGMA journal_mode=WAL`); err != nil {
+			return err
+		}
+	}
+	if w.ledgerDB == nil {
+		if err := w.openLedger(); err != nil {
+			return err
+		}
+	}
+	return nil
+}
+
+// SavedCopy is a checkpointed image of the database at some earlier instant.
+type SavedCopy struct {
+	Image []byte
+	V     int64
+}
+
+// SaveCopy records the current committed state as a stand-alone database image.
+func (w *World) SaveCopy() (*SavedCopy, error) {
+	ref, err := w.TakeReference()
+	if err != nil {
+		return nil, err
+	}
+	return &SavedCopy{Image: ref.Image, V: ref.V}, nil
+}
+
+// ReplaceDB overwrites the database file with the given image (all connections
+// of this process must be closed; litestream must be detached or disabled),
+// removes -wal/-shm, reopens the application and moves the version stamp into a
+// fresh range so later commits stay unique in the ledger.
+func (w *World) ReplaceDB(image []byte) error {
+	w.CloseAllApp()
+	if err := os.WriteFile(w.DBPath, image, 0o644); err != nil {
+		return err
+	}
+	_ = os.Remove(w.DBPath + "-wal")
+	_ = os.Remove(w.DBPath + "-shm")
+	if err := w.ReopenApp(); err != nil {
+		return err
+	}
+	var maxV int64
+	for v := range w.Ledger {
+		if v > maxV {
+			maxV = v
+		}
+	}
+	c := w.conns[0]
+	for _, q := range []string{`BEGIN IMMEDIATE`, fmt.Sprintf(`UPDATE _v SET v=%d`, maxV+1000), `COMMIT`} {
+		if _, err := c.conn.ExecContext(w.ctx, q); err != nil {
+			return fmt.Errorf("%s: %w", q, err)
+		}
+	}
+	w.Obs.Commits++
+	return w.recordLedger()
+}
+
+// WALFrames returns the number of valid frames in the live WAL generation and its salt.
+func (w *World) WALFrames() (int, uint32) {
+	d := refwal.Decode(w.ReadWAL())
+	if !d.HeaderOK {
+		return 0, 0
+	}
+	return len(d.Valid), d.Salt1
+}
